@@ -42,6 +42,16 @@ theorem cubic_mul (a0 a1 a2 b0 b1 b2 : R) :
     (B - G = (a0 * b2 + a1 * b1 + a2 * b0) + a2 * b2) := by
   refine ⟨?_, ?_, ?_⟩ <;> ring
 
+/-- C16: the vector kernels group the subtractions of the middle coefficient: (A + C) - ((E + E) + D) is the same value. -/
+theorem cubic_mul_r1 (A C D E : R) : (A + C) - ((E + E) + D) = ((((A + C) - E) - E) - D) := by ring
+
+/-- C16: mixed shapes are the embedding of the base field: (a,0,0) * (b0,b1,b2) = (a*b0, a*b1, a*b2) and
+    (a,0,0) ± (b0,b1,b2) touches coefficient 0 only - instances of cubic_mul with a1 = a2 = 0. -/
+theorem cubic_mul_base (a b0 b1 b2 : R) :
+    (a * b0 + (0 * b2 + 0 * b1) = a * b0) ∧ ((a * b1 + 0 * b0) + (0 * b2 + 0 * b1) + 0 * b2 = a * b1) ∧
+    ((a * b2 + 0 * b1 + 0 * b0) + 0 * b2 = a * b2) := by
+  refine ⟨?_, ?_, ?_⟩ <;> ring
+
 /-- C09: cofactors of Goldilocks3::inv: a * (c0, c1, c2) = (t, 0, 0) in R[x]/(x^3 - x - 1); hence a * (c * t⁻¹) = 1 when t is invertible. -/
 theorem cubic_inv (a b c : R) :
     let aa := a * a; let ac := a * c; let ba := b * a; let bb := b * b; let bc := b * c; let cc := c * c
